@@ -78,12 +78,15 @@ AuthCFrom(f, H, c, j, n) == IF j > n THEN 0
                             ELSE IF EndOf(f.recs, H, j) <= c THEN f.recs[j].plen + AuthCFrom(f, H, c, j + 1, n) ELSE 0
 AuthC(f, H, c) == AuthCFrom(f, H, c, 1, AuthN(f, H))
 
-\* ... and of those that lie more than two further whole chunks behind the read position (C11)
+\* ... and of those that lie more than two further chunks behind the read position (C11): record j is due once
+\* consumption has gone past the end of record j+2 (counted in chunks while the two further records are authentic
+\* ones, whatever their length; in bytes of two maximal records otherwise)
 Due(f, H, CS, c) ==
   LET n == AuthN(f, H)
       RECURSIVE D(_)
       D(j) == IF j > n THEN 0
-              ELSE IF EndOf(f.recs, H, j) + 2 * (CS + 32) < c THEN f.recs[j].plen + D(j + 1) ELSE 0
+              ELSE IF (j + 2 <= n /\ EndOf(f.recs, H, j + 2) < c) \/ EndOf(f.recs, H, j) + 2 * (CS + 32) < c
+                   THEN f.recs[j].plen + D(j + 1) ELSE 0
   IN D(1)
 
 \* prefix sums of the authentic run (whole chunks)
